@@ -1,8 +1,6 @@
 package fun
 
 import (
-	"fmt"
-
 	"github.com/goghcrow/yae/types"
 	"github.com/goghcrow/yae/val"
 )
@@ -52,7 +50,6 @@ var (
 				rhs := valSetOf(args[1].List().V)
 				res := val.List(args[0].List().Type.List(), 0).List()
 				res.V = union(lhs, rhs)
-				fmt.Println(res)
 				return res.Vl()
 			},
 		)
